@@ -47,6 +47,8 @@ def main():
             res['disagreements'].append({'exec': k, 'at': bad,
                 'impl': a[bad] if bad < len(a) else '<end>', 'model': b[bad] if bad < len(b) else '<end>',
                 'context': a[max(0, bad-3):bad]})
-    print(json.dumps(res, indent=1)[:6000])
+    res['n_disagreements'] = len(res['disagreements']); res['disagreements'] = res['disagreements'][:5]
+    res['impl_violations'] = res['impl_violations'][:20]; res['model_faults'] = res['model_faults'][:5]
+    print(json.dumps(res, indent=1))
     sys.exit(1 if res['disagreements'] else 0)
 main()
